@@ -162,6 +162,152 @@ fn exec(t: &mut Tape, st: &mut Stats) -> Result<(), String> {
     Ok(())
 }
 
+fn table(method: &Method, status: u16) -> Option<Method> {
+    if status == 307 || status == 308 {
+        if [Method::POST, Method::PUT, Method::PATCH, Method::DELETE].contains(method) {
+            None
+        } else {
+            Some(method.clone())
+        }
+    } else if *method == Method::HEAD {
+        Some(Method::HEAD)
+    } else {
+        Some(Method::GET)
+    }
+}
+
+const V_STATUS: [u16; 8] = [301, 302, 303, 307, 308, 300, 305, 399];
+const V_LOC: [&str; 5] = ["/next?x=1", "http://other.test/p", "http://h.test/p", "/p", ""];
+const V_BASES: [u64; 7] = [9, 8, 2, 2, 2, 5, 4];
+
+/// Stage 'variants': the table depends on method and status only. Request version 1.0 / 1.1, a Content-Length header on
+/// the request itself, send-body-despite-method, Locations that resolve to the very same URI, and a second hop whose
+/// method is the one the first hop produced.
+fn exec_variants(t: &mut Tape, st: &mut Stats) -> Result<(), String> {
+    let method = METHODS[t.below(9)].clone();
+    let status1 = V_STATUS[t.below(8)];
+    let req_v10 = t.below(2) == 1;
+    let own_cl = t.below(2) == 1;
+    let despite = t.below(2) == 1;
+    let loc = V_LOC[t.below(5)];
+    let status2 = [0u16, 301, 307, 308][t.below(4)];
+    st.evals(1);
+    let takes_body = crate::drive::recv::needs_body(&method);
+    if req_v10 && ![Method::GET, Method::HEAD, Method::POST].contains(&method) {
+        st.class("skipped_invalid");
+        return Ok(());
+    }
+    if despite && takes_body {
+        st.class("skipped_invalid");
+        return Ok(());
+    }
+    let body_due = takes_body || despite;
+    if own_cl && !body_due {
+        st.class("skipped_invalid");
+        return Ok(());
+    }
+    let what = format!("{} (HTTP/1.{}, own content-length: {}, despite: {}) -> {} Location {:?} -> {}", method, if req_v10 { 0 } else { 1 }, own_cl, despite, status1, loc, status2);
+    st.describe(|| json!({"stage": "variants", "case": what}));
+    let mk_resp = |status: u16, loc: &str| RespSpec {
+        head: RespHead { v11: true, status, reason: Some(b"R".to_vec()), fields: vec![crate::model::head::Field::new("Location", loc), crate::model::head::Field::new("Content-Length", "0")] },
+        body_wire: vec![],
+        payload: vec![],
+        close_delimited: false,
+    };
+    let spec = ExchangeSpec {
+        method: method.clone(),
+        req_v10,
+        uri: "http://h.test/p".into(),
+        req_conn: ReqConn::Absent,
+        expect: false,
+        despite,
+        req_framing: if own_cl { ReqFraming::Cl } else { ReqFraming::Auto },
+        extra_headers: vec![("x-k".into(), "1".into())],
+        body: b"12345".to_vec(),
+        await_mode: AwaitMode::NeverLook,
+        server_pre: ServerPre::Silent,
+        resp: mk_resp(status1, loc),
+    };
+    let stream = spec.stream();
+    let term = match run_exchange(&spec, None, &stream, &mut Sched::canonical()).map_err(|e| format!("{}: {}", what, e))? {
+        Outcome::Done(o, t) => {
+            check_against_truth(&spec, &o, true, stream.len()).map_err(|e| format!("{}: {}", what, e))?;
+            t
+        }
+        Outcome::Premature(_) => return Err("harness: premature".into()),
+    };
+    let mut red = match term {
+        Terminal::Redirect(r) => r,
+        Terminal::Cleanup(_) => return Err(format!("{}: redirect state not entered", what)),
+    };
+    let want1 = table(&method, status1);
+    let nf = match (red.as_new_flow(RedirectAuthHeaders::SameHost).map_err(|e| format!("{}: as_new_flow: {:?}", what, e))?, &want1) {
+        (None, None) => {
+            st.class("variant_not_followed");
+            st.count_nontrivial(1);
+            return Ok(());
+        }
+        (Some(n), None) => return Err(format!("{}: followed with {} although the table says it is not followed", what, n.method())),
+        (None, Some(m)) => return Err(format!("{}: not followed, the table says {}", what, m)),
+        (Some(n), Some(m)) => {
+            if n.method() != m {
+                return Err(format!("{}: new flow has method {}, the table says {}", what, n.method(), m));
+            }
+            n
+        }
+    };
+    st.class("variant_followed");
+    st.count_nontrivial(1);
+    if status2 == 0 {
+        return Ok(());
+    }
+    // second hop: the method is whatever the first hop produced
+    let m1 = want1.unwrap();
+    let spec2 = ExchangeSpec {
+        method: m1.clone(),
+        req_v10,
+        uri: String::new(),
+        req_conn: ReqConn::Absent,
+        expect: false,
+        despite: false,
+        req_framing: ReqFraming::Auto,
+        extra_headers: vec![],
+        body: vec![],
+        await_mode: AwaitMode::NeverLook,
+        server_pre: ServerPre::Silent,
+        resp: mk_resp(status2, "/third"),
+    };
+    if crate::drive::recv::needs_body(&m1) {
+        // a body method survives only 301..303 -> never: m1 is GET/HEAD or a body-less method
+        return Ok(());
+    }
+    let stream2 = spec2.stream();
+    let term2 = match run_exchange(&spec2, Some(nf), &stream2, &mut Sched::canonical()).map_err(|e| format!("{}: second hop: {}", what, e))? {
+        Outcome::Done(o, t) => {
+            check_against_truth(&spec2, &o, true, stream2.len()).map_err(|e| format!("{}: second hop: {}", what, e))?;
+            t
+        }
+        Outcome::Premature(_) => return Err("harness: premature".into()),
+    };
+    let mut red2 = match term2 {
+        Terminal::Redirect(r) => r,
+        Terminal::Cleanup(_) => return Err(format!("{}: second hop: redirect state not entered", what)),
+    };
+    let want2 = table(&m1, status2);
+    match (red2.as_new_flow(RedirectAuthHeaders::Never).map_err(|e| format!("{}: second hop: as_new_flow: {:?}", what, e))?, want2) {
+        (None, None) => {}
+        (Some(n), None) => return Err(format!("{}: second hop followed with {} although the table says it is not followed", what, n.method())),
+        (None, Some(m)) => return Err(format!("{}: second hop ({} answered {}) not followed, the table says {}", what, m1, status2, m)),
+        (Some(n), Some(m)) => {
+            if *n.method() != m {
+                return Err(format!("{}: second hop has method {}, the table says {}", what, n.method(), m));
+            }
+        }
+    }
+    st.class("second_hop_checked");
+    Ok(())
+}
+
 const BASES: [u64; 6] = [9, 100, 2, 2, 2, 3];
 
 pub static DEF: PropDef = PropDef {
@@ -169,17 +315,29 @@ pub static DEF: PropDef = PropDef {
     rule: "exhaustive enumeration: 9 standard methods x every status 300..399 x {Never, SameHost} x response {with, without} body x {with, without} Location x request path {plain, send-body-despite-method, Expect: 100-continue refused by this very response} = 21600 \
 cells (despite on body methods skipped); each drives a Flow through the response (and its body) and checks: Redirect entered <=> status != 304, status() equals the \
 code, as_new_flow: 307/308 => None for POST/PUT/PATCH/DELETE else same method; other 3xx => HEAD stays HEAD, GET stays GET, others \
-become GET; the new flow writes a head carrying that method. non-trivial = status outside {301,302,307,308} or method outside {GET, \
+become GET; the new flow writes a head carrying that method. enumeration 'variants' (11520 cells, invalid ones skipped): 9 methods x 8 \
+statuses x request version 1.0 / 1.1 x Content-Length on the request itself x despite-method x Location {other path, other host, \
+the very same URI in absolute / path-absolute / empty form} x second hop {none, 301, 307, 308} whose expected method is the table \
+applied to the method the first hop produced. non-trivial = status outside {301,302,307,308} or method outside {GET, \
 POST}; distinct by enumeration index.",
     assumptions: &["the method table depends on the method only: it must hold whether or not a body was due or sent"],
     exec,
-    enums: &[EnumDef {
-        name: "table",
-        count: |_t: Tier| crate::infra::runner::product(&BASES),
-        tape: |_, idx| radix(idx, &BASES),
-        exhaustive: true,
-        exec: None,
-    }],
+    enums: &[
+        EnumDef {
+            name: "table",
+            count: |_t: Tier| crate::infra::runner::product(&BASES),
+            tape: |_, idx| radix(idx, &BASES),
+            exhaustive: true,
+            exec: None,
+        },
+        EnumDef {
+            name: "variants",
+            count: |_t: Tier| crate::infra::runner::product(&V_BASES),
+            tape: |_, idx| radix(idx, &V_BASES),
+            exhaustive: true,
+            exec: Some(exec_variants),
+        },
+    ],
     randoms: &[],
     extra: None,
 };
